@@ -47,6 +47,10 @@ type Term struct {
 	P2   int    // extract lo
 	id   uint64
 	size int
+	v1    *Term    // the only variable occurring in the term (nil if none or several)
+	multi bool     // more than one variable occurs
+	tab   []uint64 // value table over the 256 values of v1 (8-bit), computed on demand
+	unev  bool     // contains an operator Eval does not support
 }
 
 var idCtr uint64
@@ -59,7 +63,283 @@ func mk(op string, s Sort, args ...*Term) *Term {
 			sz = 1 << 30
 		}
 	}
-	return &Term{Op: op, Args: args, S: s, id: atomic.AddUint64(&idCtr, 1), size: sz}
+	t := &Term{Op: op, Args: args, S: s, id: atomic.AddUint64(&idCtr, 1), size: sz}
+	for _, a := range args {
+		if a.unev {
+			t.unev = true
+		}
+		switch {
+		case a.multi:
+			t.multi = true
+		case a.v1 != nil:
+			if t.v1 == nil {
+				t.v1 = a.v1
+			} else if t.v1.Name != a.v1.Name {
+				t.multi = true
+			}
+		}
+	}
+	if t.multi {
+		t.v1 = nil
+	}
+	switch op {
+	case "fp.eq", "fp.lt", "fp.leq", "fp.gt", "fp.geq", "fp.to_sbv":
+		t.unev = true
+	}
+	return t
+}
+
+// Rebuild re-applies the operator of t to new arguments (with constant folding).
+func Rebuild(t *Term, a []*Term) *Term {
+	switch t.Op {
+	case "not":
+		return Not(a[0])
+	case "and":
+		return And(a...)
+	case "or":
+		return Or(a...)
+	case "ite":
+		return Ite(a[0], a[1], a[2])
+	case "=":
+		return Eq(a[0], a[1])
+	case "bvadd":
+		return Add(a[0], a[1])
+	case "bvsub":
+		return Sub(a[0], a[1])
+	case "bvmul":
+		return Mul(a[0], a[1])
+	case "bvudiv":
+		return UDiv(a[0], a[1])
+	case "bvurem":
+		return URem(a[0], a[1])
+	case "bvsdiv":
+		return SDiv(a[0], a[1])
+	case "bvsrem":
+		return SRem(a[0], a[1])
+	case "bvand":
+		return BAnd(a[0], a[1])
+	case "bvor":
+		return BOr(a[0], a[1])
+	case "bvxor":
+		return BXor(a[0], a[1])
+	case "bvshl":
+		return Shl(a[0], a[1])
+	case "bvlshr":
+		return LShr(a[0], a[1])
+	case "bvashr":
+		return AShr(a[0], a[1])
+	case "bvnot":
+		return BNot(a[0])
+	case "bvneg":
+		return Neg(a[0])
+	case "bvult":
+		return ULt(a[0], a[1])
+	case "bvule":
+		return ULe(a[0], a[1])
+	case "bvslt":
+		return SLt(a[0], a[1])
+	case "bvsle":
+		return SLe(a[0], a[1])
+	case "extract":
+		return Extract(a[0], t.P1, t.P2)
+	case "zext":
+		return ZExt(a[0], t.S.W)
+	case "sext":
+		return SExt(a[0], t.S.W)
+	}
+	n := mk(t.Op, t.S, a...)
+	n.P1, n.P2, n.Name = t.P1, t.P2, t.Name
+	return n
+}
+
+// Subst replaces variables by constants and simplifies.
+func (t *Term) Subst(env map[string]uint64) *Term {
+	memo := map[*Term]*Term{}
+	var rec func(x *Term) *Term
+	rec = func(x *Term) *Term {
+		if x.v1 == nil && !x.multi {
+			return x // no variables
+		}
+		if x.Op == "var" {
+			if v, ok := env[x.Name]; ok {
+				if x.S.K == KBool {
+					return BoolC(v != 0)
+				}
+				return BVC(x.S.W, v)
+			}
+			return x
+		}
+		if x.v1 != nil {
+			if _, ok := env[x.v1.Name]; !ok {
+				return x
+			}
+		}
+		if r, ok := memo[x]; ok {
+			return r
+		}
+		changed := false
+		args := make([]*Term, len(x.Args))
+		for i, a := range x.Args {
+			args[i] = rec(a)
+			if args[i] != a {
+				changed = true
+			}
+		}
+		r := x
+		if changed {
+			r = Rebuild(x, args)
+		}
+		memo[x] = r
+		return r
+	}
+	return rec(t)
+}
+
+// SingleVar returns the only variable of t (nil if t has none or several).
+func (t *Term) SingleVar() *Term {
+	if t.multi {
+		return nil
+	}
+	return t.v1
+}
+
+// ByteTable: the value of t for each of the 256 values of its single 8-bit variable.
+func (t *Term) ByteTable() []uint64 {
+	if t.multi || t.v1 == nil || t.v1.S.K != KBV || t.v1.S.W != 8 || t.unev {
+		return nil
+	}
+	if t.tab != nil {
+		return t.tab
+	}
+	tab := make([]uint64, 256)
+	switch t.Op {
+	case "var":
+		for i := range tab {
+			tab[i] = uint64(i)
+		}
+	case "const":
+		for i := range tab {
+			tab[i] = t.Val
+		}
+	default:
+		at := make([][]uint64, len(t.Args))
+		for k, a := range t.Args {
+			if a.v1 == nil && !a.multi {
+				// constant sub-term
+				v, ok := a.Eval(nil)
+				if !ok {
+					return nil
+				}
+				c := make([]uint64, 256)
+				for i := range c {
+					c[i] = v
+				}
+				at[k] = c
+				continue
+			}
+			at[k] = a.ByteTable()
+			if at[k] == nil {
+				return nil
+			}
+		}
+		args := make([]uint64, len(t.Args))
+		for i := 0; i < 256; i++ {
+			for k := range args {
+				args[k] = at[k][i]
+			}
+			v, ok := evalOp(t, args)
+			if !ok {
+				return nil
+			}
+			tab[i] = v
+		}
+	}
+	t.tab = tab
+	return tab
+}
+
+// evalOp applies the operator of x to argument values.
+func evalOp(x *Term, a []uint64) (uint64, bool) {
+	var r uint64
+	w := x.S.W
+	switch x.Op {
+	case "not":
+		r = 1 - a[0]
+	case "and":
+		r = 1
+		for _, v := range a {
+			if v == 0 {
+				r = 0
+			}
+		}
+	case "or":
+		r = 0
+		for _, v := range a {
+			if v == 1 {
+				r = 1
+			}
+		}
+	case "ite":
+		if a[0] == 1 {
+			r = a[1]
+		} else {
+			r = a[2]
+		}
+	case "=":
+		r = b2u(a[0] == a[1])
+	case "bvadd":
+		r = a[0] + a[1]
+	case "bvsub":
+		r = a[0] - a[1]
+	case "bvmul":
+		r = a[0] * a[1]
+	case "bvand":
+		r = a[0] & a[1]
+	case "bvor":
+		r = a[0] | a[1]
+	case "bvxor":
+		r = a[0] ^ a[1]
+	case "bvnot":
+		r = ^a[0]
+	case "bvneg":
+		r = -a[0]
+	case "bvshl":
+		r = Shl(BVC(w, a[0]), BVC(w, a[1])).Val
+	case "bvlshr":
+		r = LShr(BVC(w, a[0]), BVC(w, a[1])).Val
+	case "bvashr":
+		r = AShr(BVC(w, a[0]), BVC(w, a[1])).Val
+	case "bvudiv":
+		r = UDiv(BVC(w, a[0]), BVC(w, a[1])).Val
+	case "bvurem":
+		r = URem(BVC(w, a[0]), BVC(w, a[1])).Val
+	case "bvsdiv":
+		r = SDiv(BVC(w, a[0]), BVC(w, a[1])).Val
+	case "bvsrem":
+		r = SRem(BVC(w, a[0]), BVC(w, a[1])).Val
+	case "bvult":
+		r = b2u(a[0] < a[1])
+	case "bvule":
+		r = b2u(a[0] <= a[1])
+	case "bvslt":
+		ww := x.Args[0].S.W
+		r = b2u(signExt(a[0], ww) < signExt(a[1], ww))
+	case "bvsle":
+		ww := x.Args[0].S.W
+		r = b2u(signExt(a[0], ww) <= signExt(a[1], ww))
+	case "extract":
+		r = a[0] >> uint(x.P2)
+	case "zext":
+		r = a[0]
+	case "sext":
+		r = uint64(signExt(a[0], x.Args[0].S.W))
+	default:
+		return 0, false
+	}
+	if x.S.K == KBV {
+		r &= mask(w)
+	}
+	return r, true
 }
 
 func (t *Term) ID() uint64    { return t.id }
@@ -110,6 +390,7 @@ func init() {
 func Var(name string, s Sort) *Term {
 	t := mk("var", s)
 	t.Name = name
+	t.v1 = t
 	return t
 }
 
@@ -607,87 +888,43 @@ func (t *Term) Vars(m map[string]*Term) {
 
 // Eval evaluates t under an assignment of variables (missing vars = 0). FP ops unsupported.
 func (t *Term) Eval(env map[string]uint64) (uint64, bool) {
+	if t.unev {
+		return 0, false
+	}
+	if t.Op == "const" {
+		return t.Val, true
+	}
 	memo := map[*Term]uint64{}
 	ok := true
 	var ev func(x *Term) uint64
 	ev = func(x *Term) uint64 {
+		switch x.Op {
+		case "const":
+			return x.Val
+		case "var":
+			return env[x.Name]
+		}
 		if v, h := memo[x]; h {
 			return v
 		}
-		var r uint64
-		a := func(i int) uint64 { return ev(x.Args[i]) }
-		w := x.S.W
-		switch x.Op {
-		case "const":
-			r = x.Val
-		case "var":
-			r = env[x.Name]
-		case "not":
-			r = 1 - a(0)
-		case "and":
-			r = 1
-			for i := range x.Args {
-				if a(i) == 0 {
-					r = 0
-				}
-			}
-		case "or":
-			r = 0
-			for i := range x.Args {
-				if a(i) == 1 {
-					r = 1
-				}
-			}
-		case "ite":
-			if a(0) == 1 {
-				r = a(1)
+		// short-circuit ite
+		if x.Op == "ite" {
+			var r uint64
+			if ev(x.Args[0]) == 1 {
+				r = ev(x.Args[1])
 			} else {
-				r = a(2)
+				r = ev(x.Args[2])
 			}
-		case "=":
-			if a(0) == a(1) {
-				r = 1
-			}
-		case "bvadd":
-			r = a(0) + a(1)
-		case "bvsub":
-			r = a(0) - a(1)
-		case "bvmul":
-			r = a(0) * a(1)
-		case "bvand":
-			r = a(0) & a(1)
-		case "bvor":
-			r = a(0) | a(1)
-		case "bvxor":
-			r = a(0) ^ a(1)
-		case "bvnot":
-			r = ^a(0)
-		case "bvneg":
-			r = -a(0)
-		case "bvshl", "bvlshr", "bvashr", "bvudiv", "bvurem", "bvsdiv", "bvsrem":
-			c := map[string]func(a, b *Term) *Term{"bvshl": Shl, "bvlshr": LShr, "bvashr": AShr, "bvudiv": UDiv, "bvurem": URem, "bvsdiv": SDiv, "bvsrem": SRem}[x.Op](BVC(w, a(0)), BVC(w, a(1)))
-			r = c.Val
-		case "bvult":
-			r = b2u(a(0) < a(1))
-		case "bvule":
-			r = b2u(a(0) <= a(1))
-		case "bvslt":
-			ww := x.Args[0].S.W
-			r = b2u(signExt(a(0), ww) < signExt(a(1), ww))
-		case "bvsle":
-			ww := x.Args[0].S.W
-			r = b2u(signExt(a(0), ww) <= signExt(a(1), ww))
-		case "extract":
-			r = a(0) >> uint(x.P2)
-		case "zext":
-			r = a(0)
-		case "sext":
-			r = uint64(signExt(a(0), x.Args[0].S.W))
-		default:
-			ok = false
+			memo[x] = r
+			return r
 		}
-		if x.S.K == KBV {
-			r &= mask(w)
+		args := make([]uint64, len(x.Args))
+		for i, a := range x.Args {
+			args[i] = ev(a)
+		}
+		r, o := evalOp(x, args)
+		if !o {
+			ok = false
 		}
 		memo[x] = r
 		return r
